@@ -27,7 +27,8 @@
 (***************************************************************************)
 EXTENDS Integers, FiniteSets, Sequences, TLC
 
-VARIABLES cfg,         \* [np, plen (sequence, plen[i+1] = length of piece i), maxblk, maxq, cb, nconn, impl, afsend]
+VARIABLES cfg,         \* [np, plen (sequence, plen[i+1] = length of piece i), maxblk, maxq, cb, nconn, impl, afsend,
+                       \*  afcheck, shortread, twophase, bufs]   (the last four: round-3 axes, see xvars below)
                        \*   afsend = "all"  : an allowed-fast message goes out for EVERY piece entered in Peer.SentAllowedFast (design)
                        \*   afsend = "held" : ... only for the pieces that are verified at that moment, the others are entered
                        \*                     silently (expected-fail variant: a piece obtained later is served to a choked peer
@@ -44,6 +45,20 @@ VARIABLES cfg,         \* [np, plen (sequence, plen[i+1] = length of piece i), m
           served,      \* [Conn -> SUBSET Req]  PeerWriter.servedRequests
           wire,        \* [Conn -> Seq(Msg)]  rain -> leecher, in flight
           cache,       \* function: subset of (piece, cache block) -> content
+          \* ---- rain's half, round-3 axes (xvars)
+          raf,         \* [Conn -> SUBSET Piece]  Peer.ReceivedAllowedFast: allowed-fast messages the PEER sent to rain (they grant
+                       \*   rain downloads from that peer; they must never widen what rain serves to it: cfg.afcheck = "sent" is
+                       \*   the design, "received" the expected-fail variant that consults the wrong set)
+          cut,         \* [Piece -> 0 .. PLen]  environment fault: the storage under piece p ends after cut[p] bytes (file truncated
+                       \*   behind the client's back); PLen(p) = intact.  A storage read of a cache block that reaches beyond it
+                       \*   comes back short.  cfg.shortread = "error": the writer ends, the connection is closed (design);
+                       \*   "eof": a block read that returns 0 bytes is taken for a regular end and the message goes out with the
+                       \*   bytes collected so far (the code as found; expected-fail variant, C03.length)
+          hold,        \* [Conn -> Seq(rec)] of length 0 or 1: the piece message whose bytes the writer of c has fetched from the
+                       \*   cache but not yet copied to its socket (cfg.twophase: the read is not atomic with evictions and with
+                       \*   the loads of other writers).  cfg.bufs = "fresh": a buffer handed out is never written again (design);
+                       \*   "reuse": the buffer of an evicted entry is taken for the next load while a reader may still hold it
+                       \*   (expected-fail variant, C03.content, needs two concurrent uploads)
           \* ---- leecher's half, per connection
           lopen,       \* [Conn -> BOOLEAN]
           out,         \* [Conn -> Seq(Req)]  requests sent and not yet answered (piece/reject)
@@ -53,8 +68,9 @@ VARIABLES cfg,         \* [np, plen (sequence, plen[i+1] = length of piece i), m
           bad          \* tag of the first violated obligation ("" = none)
 
 rvars == <<open, fast, choking, interested, af, inq, wq, served, wire, cache>>
+xvars == <<raf, cut, hold>>
 lvars == <<lopen, out, lchoked, laf, lcan>>
-vars  == <<cfg, have, rvars, lvars, bad>>
+vars  == <<cfg, have, rvars, xvars, lvars, bad>>
 
 EmptyCache == [x \in {} |-> <<>>]
 
@@ -63,6 +79,7 @@ Piece == 0 .. (cfg.np - 1)
 PLen(i) == cfg.plen[i + 1]
 
 Min2(a, b) == IF a < b THEN a ELSE b
+MinOf(S) == CHOOSE x \in S : \A y \in S : x <= y
 
 M(k, i, b, l, d) == [k |-> k, i |-> i, b |-> b, l |-> l, d |-> d]
 R(i, b, l) == [i |-> i, b |-> b, l |-> l]
@@ -108,6 +125,15 @@ CacheAfter(p, off, n) ==
     LET t == Touched(p, off, n)
     IN  [key \in (DOMAIN cache) \cup t |-> IF key \in DOMAIN cache THEN cache[key] ELSE DiskBlock(key[1], key[2])]
 
+\* ---- storage fault (round 3): the blocks of a read whose storage read comes back short
+StoShort(p, k)      == <<p, k>> \notin DOMAIN cache /\ k * cfg.cb + BlkLen(p, k) > cut[p]
+ShortBlks(p, off, n) == {key[2] : key \in {x \in Touched(p, off, n) : StoShort(x[1], x[2])}}
+\* number of bytes collected before the first short block (blocks are fetched in ascending order)
+BytesBefore(p, off, n) ==
+    LET k == MinOf(ShortBlks(p, off, n)) IN IF k * cfg.cb > off THEN k * cfg.cb - off ELSE 0
+\* io.ReadFull over the sections: 0 bytes read = io.EOF (a "regular end" for bytes.Buffer.ReadFrom), some = ErrUnexpectedEOF
+ZeroByteRead(p, off, n) == cut[p] <= MinOf(ShortBlks(p, off, n)) * cfg.cb
+
 -----------------------------------------------------------------------------
 (* The leecher's half: observer state and the obligations of C03           *)
 
@@ -135,7 +161,6 @@ PieceViol(c, i, b, n, good) ==
     ELSE ""
 
 RemoveAt(s, k) == SubSeq(s, 1, k - 1) \o SubSeq(s, k + 1, Len(s))
-MinOf(S) == CHOOSE x \in S : \A y \in S : x <= y
 
 \* drop the request that a piece message (i, b, n bytes) answers: the oldest one with that length,
 \* otherwise (violation already recorded) the oldest with that (index, begin)
@@ -192,6 +217,7 @@ InitWith(c, h) ==
     /\ cfg = c /\ have = h
     /\ open = z.f /\ fast = z.f /\ choking = z.t /\ interested = z.f /\ af = z.s
     /\ inq = z.q /\ wq = z.q /\ served = z.s /\ wire = z.q /\ cache = EmptyCache
+    /\ raf = z.s /\ cut = [p \in 0 .. (c.np - 1) |-> c.plen[p + 1]] /\ hold = z.q
     /\ lopen = z.f /\ out = z.q /\ lchoked = z.t /\ laf = z.s /\ lcan = z.q
     /\ bad = ""
 
@@ -200,6 +226,7 @@ ResetWith(c, h) ==
     /\ cfg' = c /\ have' = h
     /\ open' = z.f /\ fast' = z.f /\ choking' = z.t /\ interested' = z.f /\ af' = z.s
     /\ inq' = z.q /\ wq' = z.q /\ served' = z.s /\ wire' = z.q /\ cache' = EmptyCache
+    /\ raf' = z.s /\ cut' = [p \in 0 .. (c.np - 1) |-> c.plen[p + 1]] /\ hold' = z.q
     /\ lopen' = z.f /\ out' = z.q /\ lchoked' = z.t /\ laf' = z.s /\ lcan' = z.q
     /\ bad' = ""
 
@@ -225,6 +252,7 @@ Open(c, f, S) ==
     /\ af' = [af EXCEPT ![c] = IF f THEN S ELSE {}]
     /\ inq' = [inq EXCEPT ![c] = <<>>]
     /\ served' = [served EXCEPT ![c] = {}]
+    /\ raf' = [raf EXCEPT ![c] = {}] /\ hold' = [hold EXCEPT ![c] = <<>>] /\ UNCHANGED cut
     /\ LET pcs == IF f THEN (IF cfg.afsend = "held" THEN S \cap have ELSE S) ELSE {}
            \* GenerateAndSendAllowedFastMessages: one message per piece (also for pieces that are not verified yet: the set is
            \* computed once per connection), ascending order is as good as any
@@ -241,7 +269,8 @@ RClose(c) ==
     /\ wq' = [wq EXCEPT ![c] = <<>>]
     /\ served' = [served EXCEPT ![c] = {}]
     /\ wire' = [wire EXCEPT ![c] = Append(@, M("closed", 0, 0, 0, <<>>))]
-    /\ UNCHANGED <<fast, choking, interested, af, cache>>
+    /\ hold' = [hold EXCEPT ![c] = <<>>]
+    /\ UNCHANGED <<fast, choking, interested, af, cache, raf, cut>>
 
 \* handlePeerMessage, one message from the peer
 RHandle(c) ==
@@ -249,8 +278,10 @@ RHandle(c) ==
     /\ LET m == Head(inq[c])
            rest == [inq EXCEPT ![c] = Tail(@)]
            push(x) == /\ wq' = [wq EXCEPT ![c] = Append(@, x)] /\ inq' = rest
-                      /\ UNCHANGED <<open, fast, choking, interested, af, served, wire, cache>>
-           drop == /\ inq' = rest /\ UNCHANGED <<open, fast, choking, interested, af, wq, served, wire, cache>>
+                      /\ UNCHANGED <<open, fast, choking, interested, af, served, wire, cache, xvars>>
+           drop == /\ inq' = rest /\ UNCHANGED <<open, fast, choking, interested, af, wq, served, wire, cache, xvars>>
+           \* which of the two allowed-fast sets the choke exception consults
+           afset == IF cfg.afcheck = "received" THEN raf[c] ELSE af[c]
        IN CASE m.k = "interested" ->
                  \* FastUnchoke: may unchoke at once (envelope of internal/unchoker)
                  /\ interested' = [interested EXCEPT ![c] = TRUE]
@@ -259,11 +290,17 @@ RHandle(c) ==
                        /\ choking' = [choking EXCEPT ![c] = FALSE]
                        /\ wq' = [wq EXCEPT ![c] = Append(@, M("unchoke", 0, 0, 0, <<>>))]
                     \/ UNCHANGED <<choking, wq>>
-                 /\ UNCHANGED <<open, fast, af, served, wire, cache>>
+                 /\ UNCHANGED <<open, fast, af, served, wire, cache, xvars>>
+            [] m.k = "peeraf" ->
+                 \* AllowedFastMessage FROM the peer: index check, then PiecePicker.HandleAllowedFast (only while rain
+                 \* downloads; the model is the larger behaviour: always recorded).  Nothing else changes.
+                 IF m.i >= cfg.np THEN RClose(c)
+                 ELSE /\ raf' = [raf EXCEPT ![c] = @ \cup {m.i}] /\ inq' = rest
+                      /\ UNCHANGED <<open, fast, choking, interested, af, wq, served, wire, cache, cut, hold>>
             [] m.k = "notinterested" ->
                  /\ interested' = [interested EXCEPT ![c] = FALSE]
                  /\ inq' = rest
-                 /\ UNCHANGED <<open, fast, choking, af, wq, served, wire, cache>>
+                 /\ UNCHANGED <<open, fast, choking, af, wq, served, wire, cache, xvars>>
             [] m.k = "req" ->
                  IF m.l > cfg.maxblk THEN RClose(c)                         \* peerreader: blockSizeError
                  ELSE IF m.i >= cfg.np THEN RClose(c)                       \* invalid request index
@@ -271,20 +308,20 @@ RHandle(c) ==
                  ELSE IF m.i \notin have THEN push(M("reject", m.i, m.b, m.l, <<>>))
                  ELSE IF choking[c]
                       THEN IF fast[c]
-                           THEN IF m.i \in af[c]
+                           THEN IF m.i \in afset
                                 THEN /\ wq' = [wq EXCEPT ![c] = QueuePiece(c, ReqOf(m))] /\ inq' = rest
-                                     /\ UNCHANGED <<open, fast, choking, interested, af, served, wire, cache>>
+                                     /\ UNCHANGED <<open, fast, choking, interested, af, served, wire, cache, xvars>>
                                 ELSE push(M("reject", m.i, m.b, m.l, <<>>))
                            ELSE drop
                       ELSE /\ wq' = [wq EXCEPT ![c] = QueuePiece(c, ReqOf(m))] /\ inq' = rest
-                           /\ UNCHANGED <<open, fast, choking, interested, af, served, wire, cache>>
+                           /\ UNCHANGED <<open, fast, choking, interested, af, served, wire, cache, xvars>>
             [] m.k = "cancel" ->
                  IF m.i >= cfg.np THEN drop
                  ELSE LET hit == {k \in 1 .. Len(wq[c]) : wq[c][k].k = "piece" /\ ReqOf(wq[c][k]) = ReqOf(m)}
                           q1 == IF hit = {} THEN wq[c] ELSE RemoveAt(wq[c], MinOf(hit))
                           q2 == IF fast[c] THEN Append(q1, M("reject", m.i, m.b, m.l, <<>>)) ELSE q1
                       IN /\ wq' = [wq EXCEPT ![c] = q2] /\ inq' = rest
-                         /\ UNCHANGED <<open, fast, choking, interested, af, served, wire, cache>>
+                         /\ UNCHANGED <<open, fast, choking, interested, af, served, wire, cache, xvars>>
     /\ UNCHANGED <<cfg, have, lvars, bad>>
 
 \* unchoker (envelope): choke any unchoked peer, unchoke any interested choked peer, at any time
@@ -293,41 +330,76 @@ RChoke(c) ==
     /\ choking' = [choking EXCEPT ![c] = TRUE]
     \* queueMessage(ChokeMessage): cancelQueuedPieceMessages, then the choke itself
     /\ wq' = [wq EXCEPT ![c] = Append(SelectNot(@, "piece"), M("choke", 0, 0, 0, <<>>))]
-    /\ UNCHANGED <<cfg, have, open, fast, interested, af, inq, served, wire, cache, lvars, bad>>
+    /\ UNCHANGED <<cfg, have, open, fast, interested, af, inq, served, wire, cache, xvars, lvars, bad>>
 
 RUnchoke(c) ==
     /\ open[c] /\ choking[c] /\ interested[c]
     /\ choking' = [choking EXCEPT ![c] = FALSE]
     /\ wq' = [wq EXCEPT ![c] = Append(@, M("unchoke", 0, 0, 0, <<>>))]
-    /\ UNCHANGED <<cfg, have, open, fast, interested, af, inq, served, wire, cache, lvars, bad>>
+    /\ UNCHANGED <<cfg, have, open, fast, interested, af, inq, served, wire, cache, xvars, lvars, bad>>
 
-\* PeerWriter.messageWriter: next queued message goes to the socket; piece data is read now
+\* PeerWriter.messageWriter: next queued message goes to the socket; piece data is read now.
+\*  - a storage read that comes back short (cut) ends the writer: the connection is closed and NO message goes out
+\*    (cfg.shortread = "error"); the code as found sends what it has when the short block returned 0 bytes ("eof")
+\*  - cfg.twophase: the bytes are fetched now (hold) and copied to the socket in a later step (RWriteEnd)
+Overwrite(d, blk) == [j \in 1 .. Len(d) |-> IF j <= Len(blk) THEN blk[j] ELSE d[j]]
 RWrite(c) ==
-    /\ open[c] /\ wq[c] # <<>>
+    /\ open[c] /\ wq[c] # <<>> /\ hold[c] = <<>>
     /\ LET m == Head(wq[c]) IN
+       IF m.k = "piece" /\ ReqOf(m) \notin served[c] /\ ShortBlks(m.i, m.b, m.l) # {}
+          /\ ~(cfg.shortread = "eof" /\ ZeroByteRead(m.i, m.b, m.l))
+       THEN \* read error: messageWriter returns, its deferred conn.Close() hangs up
+            /\ RClose(c)
+       ELSE
        /\ wq' = [wq EXCEPT ![c] = Tail(@)]
+       /\ UNCHANGED <<open, inq, raf, cut>>
        /\ IF m.k = "piece"
           THEN IF ReqOf(m) \in served[c]
                THEN /\ wire' = [wire EXCEPT ![c] = Append(@, M("reject", m.i, m.b, m.l, <<>>))]   \* duplicate request
-                    /\ UNCHANGED <<served, cache>>
-               ELSE /\ served' = [served EXCEPT ![c] = @ \cup {ReqOf(m)}]
-                    /\ wire' = [wire EXCEPT ![c] = Append(@, M("piece", m.i, m.b, m.l, ReadAt(m.i, m.b, m.l)))]
-                    /\ cache' = CacheAfter(m.i, m.b, m.l)
+                    /\ UNCHANGED <<served, cache, hold>>
+               ELSE LET n == IF ShortBlks(m.i, m.b, m.l) # {} THEN BytesBefore(m.i, m.b, m.l) ELSE m.l
+                        d == IF n = 0 THEN <<>> ELSE ReadAt(m.i, m.b, n)
+                        loaded == IF n = 0 THEN {} ELSE Touched(m.i, m.b, n) \ DOMAIN cache
+                        \* buffers of evicted entries that other writers still hold are taken for this load ("reuse")
+                        victim(o) == /\ cfg.bufs = "reuse" /\ o # c /\ hold[o] # <<>> /\ loaded # {}
+                                     /\ \E key \in hold[o][1].keys : key \notin DOMAIN cache
+                        blk == LET key == CHOOSE key \in loaded : TRUE IN DiskBlock(key[1], key[2])
+                        h1 == [o \in Conn |-> IF victim(o) THEN <<[hold[o][1] EXCEPT !.d = Overwrite(@, blk)]>> ELSE hold[o]]
+                    IN /\ served' = [served EXCEPT ![c] = @ \cup {ReqOf(m)}]
+                       /\ cache' = IF n = 0 THEN cache ELSE CacheAfter(m.i, m.b, n)
+                       /\ IF cfg.twophase
+                          THEN /\ hold' = [h1 EXCEPT ![c] = <<[m |-> m, d |-> d, keys |-> Touched(m.i, m.b, m.l)]>>]
+                               /\ UNCHANGED wire
+                          ELSE /\ wire' = [wire EXCEPT ![c] = Append(@, M("piece", m.i, m.b, m.l, d))]
+                               /\ hold' = h1
           ELSE /\ wire' = [wire EXCEPT ![c] = Append(@, m)]
-               /\ UNCHANGED <<served, cache>>
-    /\ UNCHANGED <<cfg, have, open, fast, choking, interested, af, inq, lvars, bad>>
+               /\ UNCHANGED <<served, cache, hold>>
+    /\ UNCHANGED <<cfg, have, fast, choking, interested, af, lvars, bad>>
+
+\* the writer copies the fetched bytes to its socket (second half of a two-phase read)
+RWriteEnd(c) ==
+    /\ open[c] /\ hold[c] # <<>>
+    /\ LET h == hold[c][1] IN wire' = [wire EXCEPT ![c] = Append(@, M("piece", h.m.i, h.m.b, h.m.l, h.d))]
+    /\ hold' = [hold EXCEPT ![c] = <<>>]
+    /\ UNCHANGED <<cfg, have, open, fast, choking, interested, af, inq, wq, served, cache, raf, cut, lvars, bad>>
+
+\* environment fault: the storage under a verified piece is cut behind the client's back
+Truncate(p, k) ==
+    /\ p \in have /\ k >= 0 /\ k < cut[p]
+    /\ cut' = [cut EXCEPT ![p] = k]
+    /\ UNCHANGED <<cfg, have, rvars, raf, hold, lvars, bad>>
 
 \* piececache: LRU eviction / TTL expiry, abstracted: any entry may disappear at any time
 Evict(key) ==
     /\ key \in DOMAIN cache
     /\ cache' = [x \in (DOMAIN cache) \ {key} |-> cache[x]]
-    /\ UNCHANGED <<cfg, have, open, fast, choking, interested, af, inq, wq, served, wire, lvars, bad>>
+    /\ UNCHANGED <<cfg, have, open, fast, choking, interested, af, inq, wq, served, wire, xvars, lvars, bad>>
 
 \* a piece is downloaded and verified (the set only grows while peers are connected)
 Verified(p) ==
     /\ p \in Piece \ have
     /\ have' = have \cup {p}
-    /\ UNCHANGED <<cfg, rvars, lvars, bad>>
+    /\ UNCHANGED <<cfg, rvars, xvars, lvars, bad>>
 
 -----------------------------------------------------------------------------
 (* the leecher                                                             *)
@@ -339,7 +411,7 @@ LSend(c, m) ==
     /\ IF m.k = "req" THEN ObsRequest(c, m.i, m.b, m.l)
        ELSE IF m.k = "cancel" THEN ObsCancel(c, m.i, m.b, m.l)
        ELSE UNCHANGED lvars
-    /\ UNCHANGED <<cfg, have, open, fast, choking, interested, af, wq, served, wire, cache, bad>>
+    /\ UNCHANGED <<cfg, have, open, fast, choking, interested, af, wq, served, wire, cache, xvars, bad>>
 
 \* the leecher reads the next message from its socket
 LRecv(c) ==
@@ -354,7 +426,7 @@ LRecv(c) ==
             [] m.k = "unchoke" -> ObsUnchoke(c) /\ UNCHANGED bad
             [] m.k = "af"      -> ObsAF(c, m.i) /\ UNCHANGED bad
             [] m.k = "closed"  -> ObsClosed(c) /\ UNCHANGED bad
-    /\ UNCHANGED <<cfg, have, open, fast, choking, interested, af, inq, wq, served, cache>>
+    /\ UNCHANGED <<cfg, have, open, fast, choking, interested, af, inq, wq, served, cache, xvars>>
 
 \* the leecher hangs up
 LClose(c) ==
@@ -365,7 +437,8 @@ LClose(c) ==
     /\ served' = [served EXCEPT ![c] = {}]
     /\ wire' = [wire EXCEPT ![c] = <<>>]
     /\ ObsClosed(c)
-    /\ UNCHANGED <<cfg, have, fast, choking, interested, af, cache, bad>>
+    /\ hold' = [hold EXCEPT ![c] = <<>>]
+    /\ UNCHANGED <<cfg, have, fast, choking, interested, af, cache, raf, cut, bad>>
 
 -----------------------------------------------------------------------------
 (* Invariants of the design                                                *)
